@@ -70,6 +70,10 @@ def check(ctx):
     wr = sorted({u["fn"].name for u in mut_uses_of_field(P, CR, "retry_count", "u8") if u["kind"] in ("assign", "refmut", "calldest") and not u["fn"].j.get("derived")})
     allowed = {f.name for f in tx} | {f.name for f in P.crate_fns(CR) if f.module == "dp::peripheral" and f.kind == "assoc"
                                       and f.locals[0]["ty"].startswith("std::option::Option<dp::peripheral::PeripheralEvent>")}
+    from analysis.callgraph import CallGraph, reached_only_from
+    cg_ = CallGraph(P, CR)
+    wr_bad = [w_ for w_ in wr if not reached_only_from(P, CR, cg_, w_, allowed)]
+    allowed = allowed | (set(wr) - set(wr_bad))
     ctx.ob("a.retry", "writers-of-retry-count", bool(wr) and set(wr) <= allowed,
            "Peripheral.retry_count is written outside the transmit / reply handlers (%s): a retransmission can be turned into a new message cycle "
            "with the old frame count bit, and the Offline verdict can be postponed without bound" % sorted(set(wr) - allowed), "")
